@@ -208,7 +208,7 @@ def run(ctx, report):
         'signedness of the size token, and struct formats of x86_afs.dict_size / get_im_fmt have the right width and signedness.')
     report.not_decided = 'that forge_opc/asm_candidates select the right table row and operand order for a concrete line; candidate completeness; the 16-bit addressing forms (not in the reverse table).'
 
-    R1 = report.rule('C02.D1', 'no unguarded narrowing of operand values in the assembly closure', floor=12)
+    R1 = report.rule('C02.D1', 'no unguarded narrowing of operand values in the assembly closure', floor=8)
     closure = [('x86_mn.asm_candidates', arch.method('x86_mn', 'asm_candidates')), ('x86_mn.asm_all_candidate', arch.method('x86_mn', 'asm_all_candidate')),
                ('x86_mn.arg_set_numpy_imm', arch.method('x86_mn', 'arg_set_numpy_imm')), ('x86_mn.normalize_args', arch.method('x86_mn', 'normalize_args')),
                ('x86_mn.parse_mnemo', arch.method('x86_mn', 'parse_mnemo')), ('x86_mn._asm', arch.method('x86_mn', '_asm')), ('x86_mn._asm_att', arch.method('x86_mn', '_asm_att')),
